@@ -12,5 +12,5 @@ def S(*names):
 
 
 def install(eng):
-    from . import core, collections, strings, env, sysenv  # noqa: F401  (registration side effects)
+    from . import core, collections, strings, env, sysenv, sql  # noqa: F401  (registration side effects)
     eng.summaries.update(REG)
